@@ -116,6 +116,28 @@ func init() {
 				sc.Clients = append(sc.Clients, Client{Name: "sweep", Ops: []Op{{Op: "shutdown"}}})
 				sc.RunForMs = 15000
 			}
+			if sc.Arm == "api" && r.P(700) {
+				// state queries in flight at the instants at which commands end (the TUI and REST
+				// clients poll all the time): what they leave behind is still true after the shutdown
+				var poll []Op
+				for _, p := range sc.Project.Procs {
+					if ts := sc.Scripts[p.Token]; ts != nil {
+						for _, l := range ts.Launches {
+							if l.LifeMs >= 0 && r.P(700) {
+								poll = append(poll, Op{AtMs: l.LifeMs, Op: Pick(r, "states", "state", "projstate"), Arg: p.Name})
+							}
+						}
+					}
+				}
+				if len(poll) > 0 {
+					sortOps(poll)
+					sc.Clients = append(sc.Clients, Client{Name: "poll", Ops: poll})
+					// (several observers at once, as a TUI beside a REST client)
+					for k := 0; k < r.Range(1, 2); k++ {
+						sc.Clients = append(sc.Clients, Client{Name: fmt.Sprintf("poll%d", k), Ops: append([]Op(nil), poll...)})
+					}
+				}
+			}
 			return sc
 		},
 		Sweep: true,
@@ -491,6 +513,10 @@ func init() {
 				}
 				sortOps(poll)
 				sc.Clients = append(sc.Clients, Client{Name: "poll", Ops: poll})
+				// (several observers at once, as a TUI beside a REST client)
+				for k := 0; k < r.Range(0, 2); k++ {
+					sc.Clients = append(sc.Clients, Client{Name: fmt.Sprintf("poll%d", k), Ops: append([]Op(nil), poll...)})
+				}
 			}
 			// stop requests that arrive at the very instant at which the first command of a
 			// process ends by itself (the final state is being recorded while the stop looks at it)
